@@ -416,6 +416,74 @@ func run(r *Rng, tier string, n int) {
 			Viol("C20/Dedup/type-code-ignored", "Dedup of TYPE"+Itoa(int(pair[0]))+" / TYPE"+Itoa(int(pair[1]))+" keeps "+Itoa(len(out)), nil)
 		}
 	}
+	// type bitmaps (NSEC, CSYNC, NSEC3) in every encoding a decoder might accept: the canonical one, a window
+	// split over two blocks, windows out of order, a block with a trailing zero octet, an empty block. Every
+	// RDATA that unpacks is compared with the canonical one: duplicates exactly when the RDATA octets are equal
+	{
+		variants := map[string][]byte{
+			"canonical":       {0, 1, 0x60},
+			"repeated-window": {0, 1, 0x40, 0, 1, 0x20},
+			"trailing-zero":   {0, 2, 0x60, 0},
+			"windows-swapped": {1, 1, 0x80, 0, 1, 0x60},
+			"empty-block":     {0, 0, 0, 1, 0x60},
+			"two-windows":     {0, 1, 0x60, 1, 1, 0x80},
+		}
+		for _, typ := range []uint16{dns.TypeNSEC, dns.TypeCSYNC} {
+			mk := func(bm []byte) dns.RR {
+				rd := []byte{0} // NSEC: next domain = root
+				if typ == dns.TypeCSYNC {
+					rd = []byte{0, 0, 0, 1, 0, 3}
+				}
+				rd = append(rd, bm...)
+				w := append([]byte{1, 'n', 0, byte(typ >> 8), byte(typ), 0, 1, 0, 0, 0, 9, byte(len(rd) >> 8), byte(len(rd))}, rd...)
+				rr, _, err := dns.UnpackRR(w, 0)
+				if err != nil {
+					return nil
+				}
+				return rr
+			}
+			canon := mk(variants["canonical"])
+			if canon == nil {
+				continue
+			}
+			for name, bm := range variants {
+				v := mk(bm)
+				if v == nil {
+					st["bitmap_variant_rejected_"+name]++
+					continue
+				}
+				st["bitmap_variants_checked"]++
+				want := "ok:" + Btoa(name == "canonical")
+				if got := isDup(canon, v); got != want {
+					Viol("C20/wire/bitmap-encoding/"+name, dns.TypeToString[typ]+" records whose RDATA octets differ ("+name+" bitmap encoding) : IsDuplicate = "+got, map[string]string{"a": canon.String(), "b": v.String(), "bitmap": Hx(bm)})
+				}
+			}
+		}
+	}
+	// Dedup when the SAME record value occurs more than once in the list (a cached record appended twice)
+	{
+		a, _ := dns.NewRR("same.example. 300 IN A 192.0.2.1")
+		b, _ := dns.NewRR("other.example. 300 IN A 192.0.2.2")
+		a2, _ := dns.NewRR("SAME.example. 100 IN A 192.0.2.1")
+		for _, list := range [][]dns.RR{{a, a}, {a, b, a}, {b, a, a, b, a2}, {a, a2, a}, {a}} {
+			groups := map[string]bool{}
+			for _, rr := range list {
+				groups[strings.ToLower(rr.Header().Name)] = true
+			}
+			for _, withMap := range []bool{false, true} {
+				var m map[string]dns.RR
+				if withMap {
+					m = map[string]dns.RR{}
+				}
+				in := append([]dns.RR{}, list...)
+				out := dns.Dedup(in, m)
+				st["dedup_same_value_checked"]++
+				if len(out) != len(groups) {
+					Viol("C20/Dedup/same-value-twice", "Dedup of a list of "+Itoa(len(list))+" in which one record value occurs several times keeps "+Itoa(len(out))+" records for "+Itoa(len(groups))+" groups", nil)
+				}
+			}
+		}
+	}
 	// slices of different length
 	{
 		a := &dns.TXT{Hdr: dns.RR_Header{Name: "t.", Rrtype: dns.TypeTXT, Class: 1}, Txt: []string{"a", "b"}}
